@@ -537,6 +537,10 @@ func shapesFor(c cellT) []shapeT {
 	if c.style != "deepObject" {
 		objVals := []string{`{"i":1,"s":"a"}`, `{"i":-3}`, `{"s":"abc","b":true}`, `{"i":1,"s":"a","b":false}`, `{"i":200,"s":"a"}`}
 		shapes = append(shapes, shapeT{"object-flat", `{"type":"object","properties":{"i":{"type":"integer","maximum":100},"s":{"type":"string"},"b":{"type":"boolean"}},"required":["i"]}`, objVals})
+		// members whose schema is a composition of differently typed primitives: the text is read by the
+		// first member that can read it
+		shapes = append(shapes, shapeT{"object-composed-members", `{"type":"object","properties":{"id":{"anyOf":[{"type":"integer"},{"type":"string"}]},"v":{"oneOf":[{"type":"boolean"},{"type":"number"}]}}}`,
+			labelSafe(c, []string{`{"id":"abc"}`, `{"id":7}`, `{"v":2.5}`, `{"id":"x-y_z","v":true}`, `{"id":-3,"v":0.5}`})})
 		shapes = append(shapes, shapeT{"object-additional", `{"type":"object","additionalProperties":{"type":"integer"}}`, []string{`{"x":1,"y":2}`, `{"k":-1}`}})
 	} else {
 		shapes = []shapeT{
@@ -547,10 +551,24 @@ func shapesFor(c cellT) []shapeT {
 					`{"l":[0,1,2,3,4,5,6,7,8,9,10,11]}`, `{"l":[` + strings.TrimSuffix(strings.Repeat("7,", 101), ",") + `]}`}},
 			{"deep-bounded-array", `{"type":"object","properties":{"l":{"type":"array","items":{"type":"integer"},"maxItems":11}}}`,
 				[]string{`{"l":[0,1,2,3,4,5,6,7,8,9,10]}`, `{"l":[0,1,2,3,4,5,6,7,8,9,10,11]}`}},
+			{"deep-composed-members", `{"type":"object","properties":{"id":{"anyOf":[{"type":"integer"},{"type":"string"}]},"v":{"oneOf":[{"type":"boolean"},{"type":"number"}]}}}`,
+				[]string{`{"id":"abc"}`, `{"id":7}`, `{"v":2.5}`, `{"id":"x-y_z","v":true}`}},
 			{"deep-additional", `{"type":"object","additionalProperties":{"type":"object","properties":{"v":{"type":"integer"}}}}`, []string{`{"a":{"v":1},"b":{"v":2}}`}},
 		}
 	}
 	return shapes
+}
+
+// labelSafe: under label, fractional numbers collide with the delimiter
+func labelSafe(c cellT, vals []string) []string {
+	if c.style != "label" {
+		return vals
+	}
+	out := make([]string, len(vals))
+	for i, v := range vals {
+		out[i] = strings.NewReplacer("2.5", "25", "0.5", "5").Replace(v)
+	}
+	return out
 }
 
 // label uses '.' as its delimiter: fractional numbers would be ambiguous there
